@@ -1,11 +1,11 @@
 #!/usr/bin/env python3
 """Regenerate verif/floors.json from the evidence of the unchanged tree: each rule must keep matching at least
-80 % of the instances it matches today (a rule that goes blind is analysis-broken, exit 2, never a pass)."""
+half (small rules: refactorings merge duplicated sites) or 70 % (large rules) of the instances it matches today (a rule that goes blind is analysis-broken, exit 2, never a pass)."""
 import json, glob, os, math
 V = os.path.dirname(os.path.dirname(os.path.abspath(__file__)))
 fl = {}
 for f in sorted(glob.glob(os.path.join(V, "evidence", "C*.json"))):
     e = json.load(open(f))
-    fl[e["property_id"]] = {rid: max(1, math.floor(r["obligations"] * 0.8)) for rid, r in e["coverage"]["rules"].items()}
+    fl[e["property_id"]] = {rid: max(1, math.floor(r["obligations"] * (0.5 if r["obligations"] <= 60 else 0.7))) for rid, r in e["coverage"]["rules"].items()}
 json.dump(fl, open(os.path.join(V, "verif", "floors.json"), "w"), indent=1, sort_keys=True)
 print(sum(len(v) for v in fl.values()), "rule floors")
